@@ -400,6 +400,8 @@ class Whole:
         return b.vis != "pub" and b.kind != "Closure"
 
     def _preconditions(self, b, an):
+        if b.id in getattr(self.prog, "inlined_helper_ids", ()) or (b.kind == "Closure" and b.root in getattr(self.prog, "inlined_helper_ids", ())):
+            return          # the standalone copy of a helper that was inlined into its callers: nothing calls it
         entry = self._entry_syms(b)
         allowed = self._can_assume(b)
         pre = []
